@@ -381,6 +381,9 @@ def run(ctx):
                        "(isserver, packet_type, packet_num) — the way decrypt_packet calls it"]
     import translate                 # decision-logic functions re-translated from the source and proved equal to the model
     _tm, _tt = translate.wire(ctx, "C16")
+    import oncode_thms               # the property theorems stated on the regenerated definitions themselves (Props/OnCode)
+    _om, _ot = oncode_thms.wire("C16")
+    _tm, _tt = _tm + _om, _tt + _ot
     ctx.prove(["TLX.Props.C16"] + _tm)
     ctx.require_theorems(_tt)
     ctx.require_theorems(THEOREMS)
